@@ -32,36 +32,51 @@ TECHNIQUE = "path/return classification over the CFG of html_to_nodes, regex-tre
 
 META = {
     "explanation": (
-        "R1: every return of html_to_nodes is either the pass-through constructor applied to the (optionally GFM-filtered) "
-        "`text` parameter itself - never a re-rendering of the parsed tree or a modified string - or lies behind the "
-        "`all(top-level child is <img> / <div class=admonition> and its extension is on)` gate; the pass-through constructor puts "
-        "its text parameter unchanged into exactly one nodes.raw(format='html'); the gate pairs each extension flag with its own "
-        "tag, and each run_directive call is restricted to the matching tag; both html handlers hand token.content to "
-        "html_to_nodes and attach all returned nodes; every class test (`'admonition' in ...`, title detection) is a word test on the "
-        "white-space split class list, not a substring test on the attribute text; the fragment is tokenized by a parser object built "
-        "(or reset) for that fragment, because html.parser keeps buffered text and its CDATA mode between feed() calls; between "
-        "tokenizing and the gate only nodes whose rendering is white space (blank text) are discarded, and not recursively. R2: the finite language of the GFM filter regex (enumerated from the "
-        "re._parser tree) is exactly '<' ['/'] tag for the nine tags of the GFM 'Disallowed Raw HTML' extension, it is "
-        "case-insensitive, the tag-name terminator look-ahead covers all HTML tag-name terminators and no name character, the "
-        "replacement removes the '<', no count limit, the substitution is conditional on gfm_only alone and dominates every use "
-        "of the text and every return. R3: the attribute whitelists that feed a directive's option block are subsets of that "
-        "docutils directive's option_spec (read from the docutils sources via its directive registry). R4: an HTML attribute "
-        "value (or a non-whitelisted attribute name) reaches the option block of run_directive's content only through a "
-        "quoting sanitiser that carries every value over: json.dumps(x, ensure_ascii=False) with U+0085/U+2028/U+2029 re-escaped "
-        "(JSON leaves them raw, str.splitlines and the tokenizer break lines there; the ensure_ascii default mangles non-BMP "
-        "characters into surrogate escapes), directly or in a package function that may return the value unquoted only under a "
-        "fullmatch with a regex whose language consists of plain scalars the option tokenizer returns unchanged."
+        "R1 (pass-through and gate): every return of html_to_nodes is either the pass-through constructor applied to the "
+        "(optionally GFM-filtered) `text` parameter itself - never a re-rendering of the parsed tree or an edited string - or "
+        "lies behind the convertibility gate; the constructor puts its text parameter unchanged into exactly one "
+        "nodes.raw(format='html'). The gate is recognised by what it decides per top-level element (an `if [.. or] not all(...)` "
+        "test, or a loop with `continue`/pass-through return; predicates in small helper functions are inlined, the condition is "
+        "brought to DNF): each alternative pairs an extension flag with its own tag (html_image/img, html_admonition/div + class "
+        "word 'admonition'); each run_directive call (in html_to_nodes or in a helper it calls) runs only for the matching tag. "
+        "Every class test is a word test on the white-space-split class list, not a substring test; the fragment is tokenized by "
+        "a parser object built (or reset) for that fragment (html.parser keeps buffered text / CDATA mode between feed() calls); "
+        "between tokenizing and the gate only nodes whose rendering is white space are discarded, and not recursively; both html "
+        "handlers hand token.content to html_to_nodes and attach all returned nodes. "
+        "R2 (GFM filter): the finite language of the filter regex (enumerated from the re._parser tree) is exactly '<' ['/'] tag "
+        "for the nine tags of GFM 6.11, case-insensitive, with a tag-name-terminator look-ahead covering all HTML terminators and "
+        "no name character; the replacement removes '<'; no count limit; conditional on gfm_only alone; it dominates every use "
+        "of the text and every return. "
+        "R3: attribute whitelists that feed a directive's option block (followed through helper parameters) are subsets of that "
+        "docutils directive's option_spec (read from the docutils sources via the directive registry). "
+        "R4 (taint, interprocedural over the module's helpers): an HTML attribute value or non-whitelisted attribute name reaches "
+        "the option block of run_directive's content only through a quoting step that carries every value over: "
+        "json.dumps(x, ensure_ascii=False) with U+0085/U+2028/U+2029 re-escaped, directly or in a helper that may return the "
+        "value unquoted only under a fullmatch with a regex whose language consists of plain scalars the option tokenizer returns "
+        "unchanged (helper returns are judged under the branch facts that dominate them). "
+        "R5: raw nodes are removed from / replaced in a tree only inside a deep copy made on every path, or by the "
+        "raw_enabled=False security filter of the two parsers. "
+        "R6: the enable_extensions set html_to_nodes reads is changed in place only between saving a copy and re-assigning that "
+        "copy in a finally block (figure-md's temporary html_image)."
     ),
-    "not_decided": "node-for-node equality with the directive spelling for all attribute values / bodies; behaviour of the docutils option converters; what the HTML parser accepts as a top-level element",
+    "not_decided": (
+        "node-for-node equality with the directive spelling for all attribute values and bodies; what the docutils option "
+        "converters do with a value; what html.parser accepts as a top-level element; third-party transforms that delete raw nodes; "
+        "writes to the configuration that are not in-place set operations (C13/C15)"
+    ),
     "trusted_base": [
         "CPython ast and re._parser",
         "GFM spec 0.29-gfm section 6.11 (Disallowed Raw HTML): title textarea style xmp iframe noembed noframes script plaintext",
         "WHATWG HTML tokenizer: a tag name ends at TAB, LF, FF, (CR), SPACE, '/' or '>'",
         "docutils sources as installed: directives/__init__.py registry, images.py, admonitions.py",
+        "hand-probed facts about parsers/options.py: the plain-scalar-safe alphabet [A-Za-z0-9_.%/-] with inner spaces (exhaustive to length 5); "
+        "\\uXXXX escapes are decoded one code unit at a time; U+0085/U+2028/U+2029 are line breaks for str.splitlines and the tokenizer",
     ],
     "assumptions": [
         "the `image` and `admonition` directives are the docutils classes (Sphinx does not re-register them)",
         "the first_line argument of run_directive is not parsed by the option mini-language (it is split into arguments)",
+        "html.parser.HTMLParser.reset() clears rawdata and the CDATA mode",
+        "one definition per flag/local that the gate and the filter condition refer to",
     ],
 }
 
@@ -346,46 +361,96 @@ class _Subst(ast.NodeTransformer):
         return node
 
 
-def _expand(cx: Ctx, e: ast.expr, depth: int = 0) -> ast.expr:
-    """Inline calls of one-expression helpers of the module (``def f(a, b): return <expr>``), parameters substituted."""
+def _body_as_expr(stmts: list[ast.stmt]):
+    """``if T: return A`` ... ``return B`` (locals bound once substituted) as one expression, or None."""
     import copy
 
-    if depth > 2:
+    stmts = [st for st in stmts if not (isinstance(st, ast.Expr) and isinstance(st.value, ast.Constant))]
+    if not stmts:
+        return None
+    st, rest = stmts[0], stmts[1:]
+    if isinstance(st, ast.Return):
+        return st.value
+    if isinstance(st, ast.If):
+        b_ = _body_as_expr(st.body)
+        o_ = _body_as_expr(st.orelse) if st.orelse else _body_as_expr(rest)
+        if b_ is None or o_ is None:
+            return None
+        return ast.IfExp(test=st.test, body=b_, orelse=o_)
+    if isinstance(st, (ast.Assign, ast.AnnAssign)) and st.value is not None:
+        tgt = st.targets[0] if isinstance(st, ast.Assign) and len(st.targets) == 1 else (st.target if isinstance(st, ast.AnnAssign) else None)
+        if isinstance(tgt, ast.Name):
+            r_ = _body_as_expr(rest)
+            if r_ is None:
+                return None
+            if any(isinstance(x, ast.Name) and x.id == tgt.id and isinstance(x.ctx, ast.Store) for s_ in rest for x in ast.walk(s_)):
+                return None
+            return _Subst({tgt.id: st.value}).visit(copy.deepcopy(r_))
+    return None
+
+
+def _expand(cx: Ctx, e: ast.expr, depth: int = 0) -> ast.expr:
+    """Inline calls of small pure helpers of the module (a chain of ``if T: return A`` and a final ``return B``,
+    locals bound once), parameters substituted."""
+    import copy
+
+    if depth > 3:
         return e
     if isinstance(e, ast.Call) and isinstance(e.func, ast.Name) and not any(isinstance(a, ast.Starred) for a in e.args):
         fn = cx.mod.functions.get(e.func.id)
         if fn is not None and not fn.is_lambda and fn.cls is None and fn.parent_func is None:
-            body = [st for st in fn.node.body if not (isinstance(st, ast.Expr) and isinstance(st.value, ast.Constant))]
             a = fn.node.args
-            if len(body) == 1 and isinstance(body[0], ast.Return) and body[0].value is not None and not a.vararg and not a.kwarg:
+            body = _body_as_expr(fn.node.body)
+            if body is not None and not a.vararg and not a.kwarg:
                 names = [x.arg for x in a.posonlyargs + a.args + a.kwonlyargs]
                 mapping = dict(zip(names, e.args))
                 for kw in e.keywords:
                     if kw.arg in names:
                         mapping[kw.arg] = kw.value
-                if set(mapping) == set(names):
-                    inl = _Subst(mapping).visit(copy.deepcopy(body[0].value))
+                dn = [x.arg for x in a.posonlyargs + a.args]
+                for nm, dv in zip(dn[len(dn) - len(a.defaults):], a.defaults):
+                    mapping.setdefault(nm, dv)
+                for nm, dv in zip([x.arg for x in a.kwonlyargs], a.kw_defaults):
+                    if dv is not None:
+                        mapping.setdefault(nm, dv)
+                if set(mapping) >= set(names):
+                    inl = _Subst(mapping).visit(copy.deepcopy(body))
                     return _expand(cx, inl, depth + 1)
         return e
     if isinstance(e, ast.BoolOp):
         return ast.BoolOp(op=e.op, values=[_expand(cx, v, depth) for v in e.values])
     if isinstance(e, ast.UnaryOp) and isinstance(e.op, ast.Not):
         return ast.UnaryOp(op=e.op, operand=_expand(cx, e.operand, depth))
+    if isinstance(e, ast.IfExp):
+        return ast.IfExp(test=_expand(cx, e.test, depth), body=_expand(cx, e.body, depth), orelse=_expand(cx, e.orelse, depth))
     return e
 
 
-def _dnf(cx: Ctx, e: ast.expr) -> list[list[ast.expr]]:
+def _dnf(cx: Ctx, e: ast.expr, neg: bool = False) -> list[list[ast.expr]]:
+    """Disjunctive normal form of a condition (negation pushed to the atoms; a negated atom is kept as ``not atom``)."""
     e = _expand(cx, e)
-    if isinstance(e, ast.BoolOp) and isinstance(e.op, ast.Or):
-        return [c for v in e.values for c in _dnf(cx, v)]
-    if isinstance(e, ast.BoolOp) and isinstance(e.op, ast.And):
+
+    def cross(parts):
         out = [[]]
-        for v in e.values:
-            out = [a + b for a in out for b in _dnf(cx, v)]
-            if len(out) > 32:
+        for p_ in parts:
+            out = [a + b for a in out for b in p_]
+            if len(out) > 64:
                 raise Unsupported("gate condition too large")
         return out
-    return [[e]]
+
+    if isinstance(e, ast.UnaryOp) and isinstance(e.op, ast.Not):
+        return _dnf(cx, e.operand, not neg)
+    if isinstance(e, ast.Constant) and isinstance(e.value, bool):
+        return [[]] if (e.value != neg) else []
+    if isinstance(e, ast.BoolOp):
+        is_or = isinstance(e.op, ast.Or) != neg  # De Morgan
+        parts = [_dnf(cx, v, neg) for v in e.values]
+        return [c for p_ in parts for c in p_] if is_or else cross(parts)
+    if isinstance(e, ast.IfExp):
+        # (T and X) or (not T and Y); negated: (T and not X) or (not T and not Y)
+        t, nt = _dnf(cx, e.test, False), _dnf(cx, e.test, True)
+        return cross([t, _dnf(cx, e.body, neg)]) + cross([nt, _dnf(cx, e.orelse, neg)])
+    return [[ast.UnaryOp(op=ast.Not(), operand=e)]] if neg else [[e]]
 
 
 def _find_gate(cx: Ctx, pt_returns) -> dict:
@@ -563,9 +628,11 @@ def r1_pass_through(corpus: Corpus, rep: Report, tier: str):
         rep.violation("C17.R1", k, gsite, "conversion starts when *any* top-level element is convertible: the other elements are fed to the admonition conversion instead of passing through")
     seen_tags = {}
     for conj in gate["disjuncts"]:
-        d = conj[0] if len(conj) == 1 else ast.BoolOp(op=ast.And(), values=list(conj))
+        d = conj[0] if len(conj) == 1 else ast.BoolOp(op=ast.And(), values=list(conj) or [ast.Constant(value=True)])
         ext = tag = cls = None
         for c in conj:
+            if isinstance(c, ast.UnaryOp) and isinstance(c.op, ast.Not):
+                continue  # a negated condition only narrows the alternative
             e_ = _ext_of_flag(cx, c)
             nt = _name_test(c, var)
             if e_ is not None and ext is None:
@@ -577,7 +644,7 @@ def r1_pass_through(corpus: Corpus, rep: Report, tier: str):
             else:
                 raise Unsupported(f"gate conjunct not understood: {short(c, 60)}")
         if tag is None:
-            raise Unsupported(f"gate alternative without a tag-name test: {short(d, 60)}")
+            raise Unsupported(f"gate alternative without a (positive) tag-name test: {short(d, 60) if conj else 'always true'}")
         seen_tags[tag] = (ext, cls)
         k = f"{fi.fq}|gate|<{tag}>"
         want = [(e_, v) for e_, v in CONVERTIBLE.items() if v[0] == tag]
@@ -635,7 +702,7 @@ def r1_pass_through(corpus: Corpus, rep: Report, tier: str):
     for fn_ in [f_ for f_ in cx.mod.functions.values() if not f_.is_lambda]:
         for c in fn_.local_nodes():
             if isinstance(c, ast.Compare) and len(c.ops) == 1 and isinstance(c.ops[0], (ast.In, ast.NotIn)) and isinstance(c.left, ast.Constant) and isinstance(c.left.value, str):
-                kind = _class_expr_kind(cx, c.comparators[0], None)
+                kind = _class_expr_kind(cx, c.comparators[0], None, fn_)
                 if kind is None:
                     continue
                 n_cls += 1
@@ -700,10 +767,16 @@ def r1_pass_through(corpus: Corpus, rep: Report, tier: str):
     rep.expect_min("C17.R1", 16, "5 pass-through returns, 2 conversion returns, 3 constructor facts, 3 gate facts, 2 dispatches, 4 caller facts on the pinned tree")
 
 
-def _class_expr_kind(cx: Ctx, e: ast.expr, var: str | None):
+def _class_expr_kind(cx: Ctx, e: ast.expr, var: str | None, fn: FunctionInfo | None = None):
     """Is ``e`` derived from an element's class attribute?  ("tokens", how) - a list of class names;
     ("text", how) - the attribute text (``in`` is then a substring test); None - not a class expression."""
     an = cx.attrs_name
+    if isinstance(e, ast.Name) and fn is not None and e.id not in fn.params:
+        # a local bound once: `classes = element.attrs.classes`
+        stores = [x for x in fn.local_nodes() if isinstance(x, ast.Name) and x.id == e.id and isinstance(x.ctx, ast.Store)]
+        if len(stores) == 1 and isinstance(parent(stores[0]), (ast.Assign, ast.AnnAssign)) and getattr(parent(stores[0]), "value", None) is not None:
+            return _class_expr_kind(cx, parent(stores[0]).value, var, None)
+        return None
 
     def is_attrs(x):
         return isinstance(x, ast.Attribute) and x.attr == an and (var is None or (isinstance(x.value, ast.Name) and x.value.id == var))
@@ -1244,10 +1317,11 @@ _CLEAN_BUILTINS = {"len", "int", "float", "bool", "isinstance", "any", "all", "r
 class V:
     """Abstract value: ``kind`` of the string content (join over everything inside), element structure, provenance."""
 
-    __slots__ = ("kind", "elem", "tup", "is_map", "leaves", "wl")
+    __slots__ = ("kind", "elem", "tup", "is_map", "leaves", "wl", "const")
 
-    def __init__(self, kind=CLEAN, elem=None, tup=None, is_map=False, leaves=(), wl=frozenset()):
+    def __init__(self, kind=CLEAN, elem=None, tup=None, is_map=False, leaves=(), wl=frozenset(), const=None):
         self.kind, self.elem, self.tup, self.is_map = kind, elem, tup, is_map
+        self.const = const  # (module, name) when the value is a reference to a module-level constant
         self.leaves = tuple(leaves)  # (node, description) where an unquoted attribute string enters
         self.wl = frozenset(wl)  # names of whitelist constants that filtered attribute names on the way
 
@@ -1270,8 +1344,10 @@ def vjoin(*vs: V) -> V:
 
 
 class Taint:
-    def __init__(self, cx: Ctx, fi: FunctionInfo | None = None):
+    def __init__(self, cx: Ctx, fi: FunctionInfo | None = None, param_env: dict | None = None, depth: int = 0):
         self.cx = cx
+        self.param_env = param_env or {}
+        self.depth = depth
         self.fi = fi or cx.fi
         self.mod = self.fi.module
         self.cfg = get_cfg(self.fi)
@@ -1294,11 +1370,13 @@ class Taint:
         if n.id in env:
             return env[n.id]
         if n.id in self.fi.params and not any(isinstance(x, ast.Name) and x.id == n.id and isinstance(x.ctx, ast.Store) for x in self.fi.local_nodes()):
-            return V()
+            return self.param_env.get(n.id, V())
         cfg = self.cfg
         stores = [x for x in self.fi.local_nodes() if isinstance(x, ast.Name) and x.id == n.id and isinstance(x.ctx, ast.Store) and not isinstance(parent(x), ast.comprehension)]
         if not stores:
-            if n.id in self.fi.params or n.id in self.mod.const_nodes or n.id in self.mod.functions or n.id in self.mod.classes or n.id in self.mod.imports or n.id in _BUILTINS:
+            if n.id in self.mod.const_nodes and n.id not in self.fi.params:
+                return V(const=(self.mod, n.id))
+            if n.id in self.fi.params or n.id in self.mod.functions or n.id in self.mod.classes or n.id in self.mod.imports or n.id in _BUILTINS:
                 return V()
             # a comprehension variable used outside env (should not happen) or an unknown global
             raise Unsupported(f"name `{n.id}` has no definition the taint evaluation can see")
@@ -1327,7 +1405,7 @@ class Taint:
                 continue
             vals.append(self.stored_value(st))
         if n.id in self.fi.params and cfg.paths_avoiding("ENTRY", use, lambda x: id(x) in def_stmts and x is not use):
-            vals.append(V())
+            vals.append(self.param_env.get(n.id, V()))
         # in-place growth of a local container (flow-insensitive): lines.append(f"...") / .extend / .insert / .add
         for c in self.fi.local_nodes():
             if isinstance(c, ast.Call) and isinstance(c.func, ast.Attribute) and isinstance(c.func.value, ast.Name) and c.func.value.id == n.id and c.args:
@@ -1481,9 +1559,18 @@ class Taint:
             comp = cond.comparators[0]
             vals = None
             cname = None
-            if isinstance(comp, ast.Name) and comp.id in self.mod.const_nodes:
-                cname = comp.id
-                vals = self.mod.eval_const(self.mod.const_nodes[comp.id])
+            cref = None
+            if isinstance(comp, ast.Name):
+                if comp.id in self.mod.const_nodes and comp.id not in self.fi.params and comp.id not in env:
+                    cref = (self.mod, comp.id)
+                else:
+                    try:
+                        cref = self.name(comp, env).const
+                    except Unsupported:
+                        cref = None
+            if cref is not None:
+                cname = cref[1]
+                vals = cref[0].eval_const(cref[0].const_nodes[cname])
             elif isinstance(comp, (ast.Set, ast.Tuple, ast.List)):
                 cname = unparse(comp)
                 vals = self.mod.eval_const(comp)
@@ -1560,6 +1647,31 @@ class Taint:
             raise Unsupported(f"{d}() over attribute strings is not modelled")
         if d in _CLEAN_BUILTINS:
             return V()
+        # a function of the package: evaluate what it returns for these arguments (the attribute mapping may be read inside)
+        callee = self.cx.corpus.find_function(self.mod.resolve(d)) if d else None
+        if callee is not None and not callee.is_lambda and callee.cls is None and callee.parent_func is None and not any(isinstance(a, ast.Starred) for a in e.args) and callee.fq != self.fi.fq:
+            if any(v.kind == RAW and not v.is_map and v.elem is None and v.tup is None for v in argv):
+                raise Unsupported(f"cannot decide whether `{short(e, 60)}` keeps, quotes or removes the attribute string")
+            if self.depth >= 3:
+                raise Unsupported(f"helper chain too deep at `{short(e, 40)}`")
+            a = callee.node.args
+            names = [x.arg for x in a.posonlyargs + a.args]
+            penv = {}
+            for nm, arg in zip(names, e.args):
+                penv[nm] = self.ev(arg, env)
+            for kw in e.keywords:
+                if kw.arg is not None:
+                    penv[kw.arg] = self.ev(kw.value, env)
+            sub = Taint(self.cx, callee, penv, self.depth + 1)
+            rets = [n for n in callee.local_nodes() if isinstance(n, ast.Return) and n.value is not None]
+            vals = [sub.ev(r.value, {}) for r in rets]
+            if not vals:
+                return V()
+            if len(vals) == 1:
+                return vals[0]
+            j = vjoin(*vals)
+            elems = [x.elem for x in vals if x.elem is not None]
+            return j.with_(elem=vjoin(*elems) if elems else None)
         j = vjoin(*argv)
         if j.kind == CLEAN:
             return V(wl=j.wl)
@@ -1953,7 +2065,7 @@ def r4_quoting(corpus: Corpus, rep: Report, tier: str):
                     f"the HTML {what} `{short(node, 40)}` is interpolated unquoted into the option block of the {name!r} directive (`{short(holder, 60)}`): "
                     "values containing '#', quotes, a leading '|' '>' '[' '{', ': ' or a newline are cut, rejected, or inject further options instead of being carried over unchanged"
                 )
-            rep.violation("C17.R4", k, m.site(node), msg)
+            rep.violation("C17.R4", k, getattr(node, "_mod", m).site(node), msg)
     rep.expect_min("C17.R4", 2, "the image and admonition conversions")
 
 
@@ -1964,7 +2076,182 @@ def _ancestors_expr(node):
         p = parent(p)
 
 
-RULES = [r1_pass_through, r2_gfm_filter, r3_whitelist_subset, r4_quoting]
+# ---------------------------------------------------------------------------
+# R5 raw nodes stay in the tree
+
+
+_TREE_MUTATORS = {"remove", "replace", "replace_self", "pop", "clear", "__delitem__"}
+
+
+def _is_deepcopy(v: ast.expr, mod: Module) -> bool:
+    if isinstance(v, ast.Call) and isinstance(v.func, ast.Attribute) and v.func.attr == "deepcopy" and not v.args:
+        return True
+    return isinstance(v, ast.Call) and bool(dotted(v.func)) and mod.resolve(dotted(v.func)) in ("copy.deepcopy",)
+
+
+@rule("C17.R5")
+def r5_raw_nodes_survive(corpus: Corpus, rep: Report, tier: str):
+    rep.rule("C17.R5", "raw nodes are removed/replaced only in an unconditionally made deep copy or by the raw_enabled=False security filter")
+    n_sites = 0
+    for fn in corpus.all_functions():
+        if fn.is_lambda:
+            continue
+        m = fn.module
+        for call in fn.local_nodes():
+            # findall(X)(nodes.raw) / X.findall(nodes.raw) / X.traverse(nodes.raw)
+            if not (isinstance(call, ast.Call) and len(call.args) >= 1 and dotted(call.args[0]) and m.resolve(dotted(call.args[0])) == "docutils.nodes.raw"):
+                continue
+            f = call.func
+            if isinstance(f, ast.Attribute) and f.attr in ("findall", "traverse"):
+                root = f.value
+            elif isinstance(f, ast.Call) and dotted(f.func) and dotted(f.func).split(".")[-1] == "findall" and len(f.args) == 1:
+                root = f.args[0]
+            else:
+                continue
+            # the loop (or comprehension) that consumes the iteration
+            loop = None
+            for a in [call] + [x for x in _all_ancestors(call)]:
+                if isinstance(a, ast.For):
+                    loop = a
+                    break
+                if isinstance(a, (ast.FunctionDef, ast.AsyncFunctionDef, ast.Lambda)):
+                    break
+            if loop is None or not isinstance(loop.target, ast.Name):
+                rep.listed("C17.R5", f"{fn.fq}|{short(call, 50)}", m.site(call), "raw nodes inspected, not in a loop")
+                continue
+            lv = loop.target.id
+            muts = [c for st in loop.body for c in ast.walk(st) if isinstance(c, ast.Call) and isinstance(c.func, ast.Attribute) and c.func.attr in _TREE_MUTATORS and any(isinstance(x, ast.Name) and x.id == lv for x in ast.walk(c))]
+            muts += [d for st in loop.body for d in ast.walk(st) if isinstance(d, ast.Delete)]
+            k = f"{fn.fq}|raw nodes of {short(root, 30)}"
+            site = m.site(loop)
+            if not muts:
+                rep.listed("C17.R5", k, site, "raw nodes visited, tree not changed")
+                continue
+            n_sites += 1
+            rep.saw_function(fn.fq)
+            cfg = get_cfg(fn)
+            # (b) the security filter
+            gs = cfg.guards(loop)
+            if any((not pol) and any((isinstance(x, ast.Attribute) and x.attr == "raw_enabled") or (isinstance(x, ast.Constant) and x.value == "raw_enabled") for x in ast.walk(t)) for t, pol in gs):
+                rep.ok("C17.R5", k, site, "only when the docutils setting raw_enabled is false (raw content disabled by the user)")
+                continue
+            # (a) a deep copy made on every path
+            if isinstance(root, ast.Name):
+                stores = [x for x in fn.local_nodes() if isinstance(x, ast.Name) and x.id == root.id and isinstance(x.ctx, ast.Store)]
+                copies = [parent(x) for x in stores if isinstance(parent(x), ast.Assign) and _is_deepcopy(parent(x).value, m)]
+                if copies and len(copies) == len(stores) and any(cfg.dominates(c, loop) for c in copies):
+                    rep.ok("C17.R5", k, site, f"{root.id} is a deep copy on every path")
+                    continue
+                if stores and not copies and not all(isinstance(parent(x), ast.Assign) and isinstance(parent(x).value, (ast.Name, ast.Attribute, ast.Subscript)) for x in stores):
+                    raise Unsupported(f"{fn.qualname}: cannot tell whether `{root.id}` (`{short(parent(stores[0]), 40)}`) is a copy of the tree")
+                if copies:
+                    rep.violation("C17.R5", k, site, f"`{short(muts[0], 40)}` removes raw nodes from `{root.id}`, which is a deep copy only on some paths (`{short(copies[0], 40)}` does not dominate the loop): on the others the raw HTML nodes are deleted from the document itself, e.g. inline HTML in a heading disappears from the output")
+                    continue
+            rep.violation("C17.R5", k, site, f"`{short(muts[0], 40)}` removes or replaces the raw nodes of `{short(root, 30)}` in the live tree: HTML no longer reaches the output as a raw node")
+    rep.expect_min("C17.R5", 2, "clean_astext (copy) and the raw_enabled filter(s): two today, one if the parsers share it")
+
+
+def _all_ancestors(node):
+    p = parent(node)
+    while p is not None:
+        yield p
+        p = parent(p)
+
+
+# ---------------------------------------------------------------------------
+# R6 temporary extension switches are exact
+
+
+_SET_MUTATORS = {"add", "discard", "remove", "update", "clear", "pop", "difference_update", "intersection_update", "symmetric_difference_update"}
+
+
+@rule("C17.R6")
+def r6_extension_switch_restored(corpus: Corpus, rep: Report, tier: str):
+    rep.rule("C17.R6", "in-place changes of a config's enable_extensions happen only between saving a copy and re-assigning that copy in `finally`")
+    n = 0
+    for fn in corpus.all_functions():
+        if fn.is_lambda or fn.module.name.endswith(("config.main", "._docs")):
+            continue
+        m = fn.module
+
+        def ext_path(e) -> str | None:
+            d = dotted(e)
+            if d and d.endswith(".enable_extensions"):
+                return d
+            if isinstance(e, ast.Name):
+                defs = [parent(x) for x in fn.local_nodes() if isinstance(x, ast.Name) and x.id == e.id and isinstance(x.ctx, ast.Store)]
+                paths = {dotted(d_.value) for d_ in defs if isinstance(d_, ast.Assign)}
+                paths = {p_ for p_ in paths if p_ and p_.endswith(".enable_extensions")}
+                if len(paths) == 1 and len(defs) == 1:
+                    return paths.pop()  # an alias of the live set (no copy)
+            return None
+
+        for call in fn.local_nodes():
+            if not (isinstance(call, ast.Call) and isinstance(call.func, ast.Attribute) and call.func.attr in _SET_MUTATORS):
+                continue
+            path = ext_path(call.func.value)
+            if path is None:
+                continue
+            n += 1
+            rep.saw_function(fn.fq)
+            cfg = get_cfg(fn)
+            k = f"{fn.fq}|{short(call, 70)}"
+            site = m.site(call)
+            tr = None
+            node: ast.AST = call
+            for a in _all_ancestors(call):
+                if isinstance(a, ast.Try) and a.finalbody and any(node is s_ for s_ in a.body):
+                    tr = a
+                    break
+                if isinstance(a, (ast.FunctionDef, ast.AsyncFunctionDef)):
+                    break
+                node = a
+            if tr is None:
+                # `x.add(..)` directly followed (in the same block) by `try: ... finally: restore` - e.g. in a context manager
+                st = cfg.stmt_of(call)
+                blk = None
+                for fld in ("body", "orelse", "finalbody"):
+                    if st in getattr(parent(st), fld, []):
+                        blk = getattr(parent(st), fld)
+                if blk is not None:
+                    later = [x for x in blk[blk.index(st) + 1 :]]
+                    if later and isinstance(later[0], ast.Try) and later[0].finalbody:
+                        tr = later[0]
+            why = None
+            if tr is None:
+                why = "it is not inside (or directly before) a try whose finally restores the set"
+            else:
+                restores = [s_ for s_ in tr.finalbody if isinstance(s_, ast.Assign) and len(s_.targets) == 1 and dotted(s_.targets[0]) == path and isinstance(s_.value, ast.Name)]
+                if not restores:
+                    why = f"the finally block does not re-assign `{path}` from a saved copy (undoing the change in place also removes an extension that was enabled before)"
+                else:
+                    sv = restores[0].value.id
+                    sdefs = [parent(x) for x in fn.local_nodes() if isinstance(x, ast.Name) and x.id == sv and isinstance(x.ctx, ast.Store)]
+                    ok = False
+                    if len(sdefs) == 1 and isinstance(sdefs[0], ast.Assign):
+                        v = sdefs[0].value
+                        is_copy = (
+                            isinstance(v, ast.Call)
+                            and (
+                                (dotted(v.func) and m.resolve(dotted(v.func)) in ("copy.copy", "copy.deepcopy", "set", "frozenset") and len(v.args) == 1 and dotted(v.args[0]) == path)
+                                or (isinstance(v.func, ast.Attribute) and v.func.attr == "copy" and dotted(v.func.value) == path)
+                            )
+                        )
+                        if is_copy and cfg.dominates(sdefs[0], tr):
+                            ok = True
+                        elif not is_copy:
+                            why = f"`{sv}` is not a copy of the set (`{short(v, 40)}`): re-assigning it restores nothing, the extension stays switched on for the rest of the document"
+                    if not ok and why is None:
+                        why = f"the saved value `{sv}` is not a copy taken before the try"
+            if why is None:
+                rep.ok("C17.R6", k, site, f"between `{sv} = copy(...)` and `finally: {path} = {sv}`")
+            else:
+                rep.violation("C17.R6", k, site, f"`{short(call, 50)}` changes the extension set that html_to_nodes reads, and {why}: <img>/<div class=admonition> elsewhere in the document are then converted (or not) contrary to the configured extensions")
+    if n == 0:
+        rep.ok("C17.R6", "no in-place change of enable_extensions in the package", "myst_parser", "nothing to bracket")
+
+
+RULES = [r1_pass_through, r2_gfm_filter, r3_whitelist_subset, r4_quoting, r5_raw_nodes_survive, r6_extension_switch_restored]
 
 
 def _move_block_after(src: str, block: ast.stmt, anchor: ast.stmt) -> str:
@@ -2153,6 +2440,34 @@ def mutants(corpus: Corpus):
         add("c17-root-stripped-recursively", "C17.R1", splice(src, rec.value, "True"), "inner white space kept")
     else:
         out.append(("c17-root-stripped-recursively", "no recurse=False keyword in html_to_nodes"))
+    # ---- R5: raw nodes stay in the tree ----
+    ca = corpus.find_function(f"{cx.base.name}.clean_astext")
+    if ca is not None:
+        cp_ = find_stmt(ca, lambda s_: isinstance(s_, ast.Assign) and _is_deepcopy(s_.value, ca.module))
+        if cp_ is not None:
+            seg = ast.get_source_segment(ca.module.src, cp_)
+            ind = " " * cp_.col_offset
+            tgt = unparse(cp_.targets[0])
+            add("c17-title-copy-only-with-images", "C17.R5", splice(ca.module.src, cp_, f"if any(True for _ in findall({tgt})(nodes.image)):\n{ind}    {seg}"), "clean_astext", rel_=ca.module.rel, note="seed class: copy made on some paths only, raw nodes deleted from the real title")
+            add("c17-title-copy-dropped", "C17.R5", splice(ca.module.src, cp_, "pass"), "clean_astext", rel_=ca.module.rel)
+        else:
+            out.append(("c17-title-copy-mutants", "clean_astext makes no deep copy"))
+    for modname, q in (("parsers.sphinx_", "MystParser.parse"), ("parsers.docutils_", "Parser.parse")):
+        pf = corpus.func(f"{modname}:{q}")
+        g_ = find_node(pf, lambda n: isinstance(n, ast.If) and "raw_enabled" in unparse(n.test))
+        if g_ is not None:
+            add(f"c17-raw-filter-unconditional-{modname.split('.')[-1]}", "C17.R5", splice(pf.module.src, g_.test, "True"), "raw nodes of document", rel_=pf.module.rel, canary=(modname == "parsers.sphinx_"))
+    # ---- R6: extension switch restored ----
+    fm = corpus.func("sphinx_ext.directives:FigureMarkdown.run")
+    sv_ = find_stmt(fm, lambda s_: isinstance(s_, ast.Assign) and isinstance(s_.value, ast.Call) and (dotted(s_.value.func) or "") == "copy" and (dotted(s_.value.args[0]) or "").endswith(".enable_extensions"))
+    tr_ = find_stmt(fm, lambda s_: isinstance(s_, ast.Try) and s_.finalbody)
+    if sv_ is not None and tr_ is not None:
+        fsrc = fm.module.src
+        add("c17-extension-set-saved-by-alias", "C17.R6", splice(fsrc, sv_.value, ast.get_source_segment(fsrc, sv_.value.args[0])), "FigureMarkdown.run", rel_=fm.module.rel, note="no copy: html_image stays on after the first figure-md")
+        path_ = dotted(sv_.value.args[0])
+        add("c17-extension-switch-undone-in-place", "C17.R6", splice(fsrc, tr_.finalbody[0], f'{path_}.discard("html_image")'), "FigureMarkdown.run", rel_=fm.module.rel, note="seed class: html_image switched off although it was enabled")
+    else:
+        out.append(("c17-extension-switch-mutants", "figure-md no longer saves a copy of enable_extensions before a try/finally"))
     tk = corpus.find_function(m.resolve("tokenize_html"))
     if tk is not None:
         asg = find_stmt(tk, lambda s_: isinstance(s_, ast.Assign) and isinstance(s_.value, ast.Call) and corpus.find_class(tk.module.resolve(dotted(s_.value.func) or "")) is not None)
